@@ -74,6 +74,10 @@ pub enum Event {
     Defer(u8),
     /// message k is held back until after the next Tick (slow message; FIFO regime only)
     Delay(u8),
+    /// message k is held back in the network for an unbounded time (FIFO regime only)
+    Hold(u8),
+    /// every held-back message re-enters the queue (at the back)
+    Release,
     /// node i's clock jumps one quantum ahead: its timers fire early
     Skew(u8),
     /// all traffic from and to node i is lost until Heal
@@ -95,6 +99,9 @@ impl Event {
         if s == "Heal" {
             return Some(Event::Heal);
         }
+        if s == "Release" {
+            return Some(Event::Release);
+        }
         let (name, rest) = s.split_once('(')?;
         let k: u8 = rest.strip_suffix(')')?.parse().ok()?;
         Some(match name {
@@ -104,6 +111,7 @@ impl Event {
             "Drop" => Event::Drop(k),
             "Defer" => Event::Defer(k),
             "Delay" => Event::Delay(k),
+            "Hold" => Event::Hold(k),
             "Skew" => Event::Skew(k),
             "Isolate" => Event::Isolate(k),
             "Append" => Event::Append(k),
@@ -123,6 +131,7 @@ pub const F_DUP_INDEX: u32 = 16; // a node's storage holds two entries with one 
 pub const F_DOUBLE_VOTE: u32 = 32; // a node answered Vote with Ok for two candidates in one term
 pub const F_OLDER_LEADER_ACCEPTED: u32 = 128; // a node answered Ok to Append/Heartbeat of a leader whose term is lower than a term the node has already voted in
 pub const F_APPEND_ON_DIVERGENT_PREFIX: u32 = 256; // a follower stored entry i from a leader although its log below i differs from that leader's log
+pub const F_DIVERGENT_BY_BATCH: u32 = 512; // the FIRST such store of the history was made by an Append carrying several entries (a reconcile batch)
 pub const F_STALE_VOTE: u32 = 64; // a candidate became leader counting an Ok reply to a Vote request of another term
 
 #[derive(Clone, Default, PartialEq, Eq, Debug)]
@@ -191,6 +200,8 @@ pub struct World {
     pub skew: [u64; N],
     pub net: Vec<Packet>,
     pub delayed: Vec<Packet>,
+    /// messages held back until an explicit Release
+    pub held: Vec<Packet>,
     pub isolated: Option<u8>,
     pub appends: u8,
     pub dups: u8,
@@ -291,7 +302,7 @@ impl World {
                 )
             })
             .collect();
-        World { nodes, now: 0, skew: [0; N], net: vec![], delayed: vec![], isolated: None, appends: 0, dups: 0, multiset, ghost: Ghost::default() }
+        World { nodes, now: 0, skew: [0; N], net: vec![], delayed: vec![], held: vec![], isolated: None, appends: 0, dups: 0, multiset, ghost: Ghost::default() }
     }
 
     fn clock(&self, i: usize) {
@@ -355,6 +366,22 @@ impl World {
                 self.now += QUANTUM_MS;
                 let d: Vec<Packet> = self.delayed.drain(..).collect();
                 for p in d {
+                    self.push_net(p);
+                }
+            }
+            Event::Hold(k) => {
+                if self.multiset || k as usize >= self.net.len() {
+                    return Err("Hold not enabled".into());
+                }
+                let p = self.net.remove(k as usize);
+                self.held.push(p);
+            }
+            Event::Release => {
+                if self.held.is_empty() {
+                    return Err("Release not enabled".into());
+                }
+                let h: Vec<Packet> = self.held.drain(..).collect();
+                for p in h {
                     self.push_net(p);
                 }
             }
@@ -503,6 +530,9 @@ impl World {
                         let mine_below: Vec<(u64, u64, u8)> = { let mut v: Vec<(u64, u64, u8)> = after.entries.iter().filter(|e| e.index < top).map(|e| (e.index, e.term, e.data)).collect(); v.sort(); v.dedup(); v };
                         let theirs_below: Vec<(u64, u64, u8)> = { let mut v: Vec<(u64, u64, u8)> = se.iter().filter(|e| e.index < top).map(|e| (e.index, e.term, e.data)).collect(); v.sort(); v.dedup(); v };
                         if self.nodes[sender].v_state().0 == raft::V_LEADER && mine_below != theirs_below {
+                            if self.ghost.flags & F_APPEND_ON_DIVERGENT_PREFIX == 0 && r.v_logs().len() >= 2 {
+                                self.ghost.flags |= F_DIVERGENT_BY_BATCH;
+                            }
                             self.ghost.flags |= F_APPEND_ON_DIVERGENT_PREFIX;
                         }
                     }
@@ -716,6 +746,8 @@ impl World {
             "two-leaders-one-term"
         } else if f & F_OLDER_LEADER_ACCEPTED != 0 {
             "follower-of-older-term-leader-after-voting-in-newer-term"
+        } else if f & F_DIVERGENT_BY_BATCH != 0 {
+            "reconcile-batch-stored-on-top-of-a-log-that-differs-from-the-leaders"
         } else if f & F_APPEND_ON_DIVERGENT_PREFIX != 0 {
             "entry-stored-on-top-of-a-log-that-differs-from-the-leaders"
         } else if f & F_STALE_ACK != 0 {
@@ -805,6 +837,11 @@ impl World {
             out.extend_from_slice(&(p.enc.len() as u32).to_le_bytes());
             out.extend_from_slice(&p.enc);
         }
+        out.extend_from_slice(&(self.held.len() as u32).to_le_bytes());
+        for p in &self.held {
+            out.extend_from_slice(&(p.enc.len() as u32).to_le_bytes());
+            out.extend_from_slice(&p.enc);
+        }
         out.push(self.isolated.map(|i| i + 1).unwrap_or(0));
         out.push(self.appends);
         out.push(self.dups);
@@ -869,6 +906,7 @@ impl World {
             "isolated": self.isolated,
             "in_flight": self.net.iter().map(describe_packet).collect::<Vec<_>>(),
             "delayed": self.delayed.iter().map(describe_packet).collect::<Vec<_>>(),
+            "held": self.held.iter().map(describe_packet).collect::<Vec<_>>(),
             "nodes": nodes,
             "leader_committed": self.ghost.leader_committed,
             "leaders_seen": self.ghost.leaders.iter().map(|l| format!("term {} node {}", l.0, l.1)).collect::<Vec<_>>(),
